@@ -13,9 +13,9 @@ from harness import build, world, clock, spside, xmlmut, readers
 PROPERTY = 'C10'
 LEVEL = 'exploration'
 RULE = ('Hypothesis: request type {AuthnRequest, LogoutRequest, AttributeQuery -> IdP; LogoutRequest -> SP} x binding {Redirect, POST, SOAP} x requester {signing key in metadata, encryption-only key in metadata, no key in metadata} x signed {no, issuer key, foreign key} x '
-        'receiver {no requirement, want_authn_requests_signed, want_authn_requests_only_with_valid_cert} x Destination {own, foreign, near miss of an own endpoint (suffix, query, case, scheme, prefix), other own endpoint, absent} x IssueInstant offset {0, +-1 h, +-(1 day) +- 2 s, +-10 d, -400 d} (independent of each other) x mutation {none, missing '
+        'receiver {no requirement, want_authn_requests_signed, want_authn_requests_only_with_valid_cert} x Destination {own, foreign, near miss of an own endpoint (suffix, query, case, scheme, prefix), other own endpoint, absent} x IssueInstant offset {0, +-1 h, +-(1 day) +- 2 s, +-30 h, +-10 d, -400 d} x process time zone {UTC, UTC-12, UTC+13} (independent of each other) x mutation {none, missing '
         'required attribute, other request type at this entry point, wrong root element, issuer unknown, truncated or garbled base64 / deflate / envelope layer, 1-3 step tree '
-        'mutation script (edit, move, wrap, signature relocation, XSW construction) applied after signing}; plus key roll-over sequences on one long-lived IdP (metadata source re-loaded with another signing key between two signed requests); plus the enumerated catalogue of XSW constructions (original parked in 7 places x 4 ID modes x 4 signature modes x 2 positions x stripped or not) over a signed request of every type and binding. Non-trivial = a mutation or a signature requirement is involved; '
+        'mutation script (edit, move, wrap, signature relocation, XSW construction) applied after signing}; plus key roll-over sequences on one long-lived IdP (metadata source re-loaded with another signing key between two signed requests); plus the enumerated catalogue of XSW constructions (original parked in 7 places x 5 ID modes x 4 signature modes x 2 positions x stripped or not) over a signed request of every type and binding. Non-trivial = a mutation or a signature requirement is involved; '
         'distinct = distinct case.')
 ASSUMPTIONS = ['xmlsec1 stand-in; frozen clock; signature coverage re-checked with the independent predicate of C01 on the request element',
                'want_authn_requests_only_with_valid_cert is generated without a certificate authority configured (the certificate check then passes trivially; signatures must still verify)']
@@ -60,7 +60,7 @@ def receivers(want_signed):
 
 MUTS = ['none', 'none', 'none', 'none', 'missing-attr', 'other-type', 'wrong-root', 'issuer-unknown', 'garble', 'script', 'script', 'edit-after-sign']
 DMODES = ['own', 'own', 'own', 'own', 'foreign', 'near', 'near', 'other-own', 'absent', 'absent']
-OFFSETS = [0, 0, 0, 0, 0, 3600, -3600, -86400 - 2, -86400 + 2, 86400 - 2, 86400 + 2, -10 * 86400, 10 * 86400, -400 * 86400]
+OFFSETS = [0, 0, 0, 0, 0, 3600, -3600, -86400 - 2, -86400 + 2, 86400 - 2, 86400 + 2, -10 * 86400, 10 * 86400, -400 * 86400, -30 * 3600, 30 * 3600]
 TBS = [('authn', 'redirect'), ('authn', 'post'), ('logout', 'redirect'), ('logout', 'post'), ('logout', 'soap'), ('attrq', 'soap'), ('sp-logout', 'redirect'), ('sp-logout', 'soap'),
        # delivery over a binding for which the receiver has configured no endpoint of that service
        ('authn', 'soap'), ('attrq', 'post'), ('sp-logout', 'post')]
@@ -70,7 +70,7 @@ def case_strategy():
     from hypothesis import strategies as st
     tb = st.sampled_from(TBS)
     return st.fixed_dictionaries({'tb': tb.map(list), 'signed': st.sampled_from(['no', 'issuer', 'issuer', 'foreign']), 'want_signed': st.sampled_from([False, True, False, True, 'only-valid-cert']), 'mut': st.sampled_from(MUTS),
-                                  'dmode': st.sampled_from(DMODES), 'sender': st.sampled_from(['std', 'std', 'std', 'std', 'enc-only', 'no-key']), 'offset': st.sampled_from(OFFSETS), 'near': st.integers(0, 9),
+                                  'dmode': st.sampled_from(DMODES), 'tz': st.sampled_from([None, None, None, None, 'AAA+12', 'BBB-13']), 'sender': st.sampled_from(['std', 'std', 'std', 'std', 'enc-only', 'no-key']), 'offset': st.sampled_from(OFFSETS), 'near': st.integers(0, 9),
                                   'attr': st.sampled_from(['ID', 'IssueInstant', 'Version']), 'garble': st.tuples(st.sampled_from(['truncate', 'flip', 'prefix', 'not-b64', 'empty']), st.integers(1, 200)).map(list),
                                   'script': xmlmut.script_strategy(3), 'alg': st.sampled_from(['sha1', 'sha256', 'sha512']),
                                   'edit': st.sampled_from(['ID', 'Destination', 'AssertionConsumerServiceURL', 'Issuer', 'NameID'])})
@@ -85,6 +85,13 @@ def render(typ, fields):
 
 
 def run(case):
+    if case.get('tz'):
+        with clock.tz(case['tz']):
+            return _run(dict(case, tz=None))
+    return _run(case)
+
+
+def _run(case):
     typ, binding = case['tb']
     idp, sp = receivers(case['want_signed'])
     clock.set_now(NOW)
@@ -338,7 +345,7 @@ def xsw_catalogue(full):
     ctx = [(tb, want) for tb in TBS for want in (False, True)]
     n = 0
     for place in range(7):
-        for idm in range(4):
+        for idm in range(5):
             for sgm in range(4):
                 for pos in (0, 1):
                     for strip in (0, 1):
